@@ -30,6 +30,14 @@
 (* Stop() after Start(): KillWithChildren (TERM, KILL to the group) and    *)
 (* Wait.                                                                   *)
 (*                                                                         *)
+(* launcher: the command is run as it is ("direct") or through a command   *)
+(* translator ("translated": sudo, su, gosu ... - the harness uses env,     *)
+(* which execs the command).  GroupWhenTranslated: TRUE = as coded, the    *)
+(* process group is created at spawn whatever the launcher; FALSE = a      *)
+(* translated command stays in the caller's group: there is no group to    *)
+(* signal and the kill can only walk the tree by parent pid, which finds   *)
+(* no descendant whose parent is gone.                                     *)
+(*                                                                         *)
 (* Descendants never exit by themselves (they sleep): a call that can only *)
 (* return once one of them exits never returns in the model.               *)
 (* Properties: AfterReturnNoSurvivor (safety), StopReturns (liveness under *)
@@ -37,14 +45,14 @@
 (***************************************************************************)
 EXTENDS Naturals, FiniteSets, TLC, Json
 
-CONSTANTS Desc, OnCancel, WaitDelay, ReapedGroupKill
+CONSTANTS Desc, OnCancel, WaitDelay, ReapedGroupKill, GroupWhenTranslated
 
 Procs == {0} \cup Desc
-VARIABLES parent, inGroup, ignTerm, holds, rootExits, startMode, stopMode,    \* the scenario
+VARIABLES parent, inGroup, ignTerm, holds, rootExits, startMode, stopMode, launcher,    \* the scenario
           spawned, alive, phase, termSent, isOn
 
-scenario == <<parent, inGroup, ignTerm, holds, rootExits, startMode, stopMode>>
-vars == <<parent, inGroup, ignTerm, holds, rootExits, startMode, stopMode, spawned, alive, phase, termSent, isOn>>
+scenario == <<parent, inGroup, ignTerm, holds, rootExits, startMode, stopMode, launcher>>
+vars == <<parent, inGroup, ignTerm, holds, rootExits, startMode, stopMode, launcher, spawned, alive, phase, termSent, isOn>>
 
 Init == /\ parent \in [Desc -> Procs] /\ \A d \in Desc : parent[d] < d
         /\ inGroup \in [Desc -> BOOLEAN] /\ ignTerm \in [Desc -> BOOLEAN] /\ holds \in [Desc -> BOOLEAN]
@@ -56,6 +64,7 @@ Init == /\ parent \in [Desc -> Procs] /\ \A d \in Desc : parent[d] < d
         /\ startMode \in {"execute", "start"}
         /\ stopMode \in {"ctx", "cancel", "stop"}
         /\ (stopMode = "stop" => startMode = "start")
+        /\ launcher \in {"direct", "translated"}
         /\ spawned = [p \in Procs |-> p = 0] /\ alive = [p \in Procs |-> p = 0]
         /\ phase = "running" /\ termSent = FALSE /\ isOn = TRUE
 
@@ -74,12 +83,18 @@ Request == /\ phase = "running" /\ phase' = "requested"
 KillTree == startMode = "start" \/ OnCancel = "kill-tree"
 InGroupAlive == {d \in Desc : spawned[d] /\ alive[d] /\ inGroup[d]}
 
+\* is there a process group to signal?  Without one the kill walks the tree by parent pid from the direct child
+HasGroup == launcher = "direct" \/ GroupWhenTranslated
+RECURSIVE Reachable(_)
+Reachable(d) == spawned[d] /\ alive[parent[d]] /\ (parent[d] = 0 \/ Reachable(parent[d]))
 \* signals: either the direct child only, or TERM to it then KILL to the whole group
 Signals == /\ phase = "requested"
            /\ IF startMode = "execute" /\ ~alive[0] /\ ~ReapedGroupKill
               THEN UNCHANGED alive          \* the direct child was already waited for: nobody left to signal
-              ELSE IF KillTree
+              ELSE IF KillTree /\ HasGroup
               THEN alive' = [p \in Procs |-> IF p = 0 \/ (p \in Desc /\ inGroup[p]) THEN FALSE ELSE alive[p]]
+              ELSE IF KillTree
+              THEN alive' = [p \in Procs |-> IF p = 0 \/ (p \in Desc /\ Reachable(p)) THEN FALSE ELSE alive[p]]
               ELSE alive' = [alive EXCEPT ![0] = FALSE]
            /\ phase' = "signalled" /\ termSent' = TRUE
            /\ UNCHANGED <<scenario, spawned, isOn>>
@@ -103,7 +118,7 @@ OutOfScopeSurvivors == {d \in Desc : spawned[d] /\ alive[d] /\ ~inGroup[d]}
 
 Scenario == [parent |-> [d \in Desc |-> parent[d]], inGroup |-> [d \in Desc |-> inGroup[d]], ignTerm |-> [d \in Desc |-> ignTerm[d]],
              holds |-> [d \in Desc |-> holds[d]], rootExits |-> rootExits, startMode |-> startMode, stopMode |-> stopMode,
-             desc |-> Desc]
+             launcher |-> launcher, desc |-> Desc]
 EmitView == scenario
 Emit == PrintT(<<"BEHAVIOUR", ToJson(Scenario)>>)
 =============================================================================
